@@ -47,7 +47,7 @@ GUIDE = {
                 "cea", "dwa", "dpa", "fin", "rst"],
     "Open": ["local-req", "local-req", "app-ans-echo", "app-ans-echo", "app-ans-echo", "dpr-pair-app", "dwr", "dwr", "dwr-retx", "dwr-retx", "cer-retx", "dwr-pair", "dwr-wrong-host", "dwa", "dpr", "dpr-wrong-host", "dpr-busy", "dpa", "app-req", "app-req", "app-req-binary", "app-ans",
              "app-req-pair-dwr", "misaddressed-req", "local-stop", "fin", "rst", "idle", "cer", "cer-wrong-host", "cea", "cea-wrong-host"],
-    "Closing": ["dpa", "dpa", "dpa", "fin", "rst", "dwr", "app-req", "dwa"],
+    "Closing": ["dpa", "dpa", "dpa", "fin", "rst", "dwr", "app-req", "dwa", "dpr", "dpr"],
     "Ended": ["restart"],
 }
 # Open with a request of the local application outstanding / just answered: the peer's answer (and its duplicate) is likely next
@@ -81,7 +81,7 @@ def cases(draw, base_heavy=False):
     for _ in range(n):
         pool = GUIDE[g]
         if base_heavy and g in ("Open", "OpenP", "OpenA"):
-            pool = ["dwr", "dwr-pair", "dwr-pair", "app-req-pair-dwr", "dpr", "app-req", "local-stop", "cer"]
+            pool = ["dwr", "dwr-pair", "dwr-pair", "app-req-pair-dwr", "dpr", "app-req", "local-stop", "local-stop", "cer", "cea", "dwr-retx"]
         if draw(st.integers(0, 9)) == 0:
             pool = BASE_EVENTS                      # now and then an arbitrary event, to exercise the applicability filter
         e = draw(st.sampled_from(pool))
@@ -343,6 +343,12 @@ class Run:
             elif poss0 == {"Closed"}:
                 det = dict(next="Closed", out={(282, False): 0, (257, False): 0})
             else:
+                if poss0 == {"Closing"} and e == "dpr":
+                    # crossing disconnects: the peer's DPR arrives while the node waits for the DPA of its own; answering it is
+                    # left open, but an answer must be that request's answer
+                    self.optional.append((282, hbh, e2e, self.generation))
+                    self.req_log.append((282, hbh, e2e, self.generation, True))
+                    self.peer_sent.append((282, hbh, e2e))
                 nxt = poss0 | {"Closed"}
         elif e == "dpa":
             dpr = next((m for m in reversed(before) if m["cmd"] == 282 and m["flags"] & 0x80), None)
